@@ -2,6 +2,7 @@ import FgaVerif.Proofs.Weights
 import FgaVerif.Proofs.ReachComplete
 import FgaVerif.Proofs.WeightsCongr
 import FgaVerif.Proofs.WAssignCycle
+import FgaVerif.Proofs.WGraphDst
 /-! # C05 — a model is accepted iff it is well-founded (specification side)
 
     As for C04, `Spec/Weights.lean` is a specification the real verdict is compared with under every
@@ -40,7 +41,10 @@ import FgaVerif.Proofs.WAssignCycle
       `algorithm_prepass_complete` is the contrapositive, and `algorithm_prepass_sound` the converse on
       graphs whose rewrite/computed edges end in nodes of the graph (`rclosedB`, evaluated by the driver on
       every built graph): the pre-pass fires only if a cycle
-      exists (the chain of nodes in progress closes it), so it decides the question exactly.
+      exists (the chain of nodes in progress closes it), so it decides the question exactly;
+      `built_graph_closed` shows every graph that comes out of the (ported) construction is closed
+      (`Proofs/WGraphDst.lean`, an invariant through `GetOrAddNode`/`AddEdge`/`UpsertEdge` and the
+      recursion over the rewrite), hence `algorithm_prepass_exact_on_built_graphs` with no hypothesis.
 
     Not proved: that the port's verdict equals the specification's in general. -/
 namespace FgaVerif.Props.C05
@@ -174,6 +178,33 @@ theorem algorithm_prepass_complete (g : FgaVerif.Model.WGraph.G)
 theorem algorithm_prepass_sound (g : FgaVerif.Model.WGraph.G) (hcl : FgaVerif.Model.WAssign.rclosedB g = true)
     (h : FgaVerif.Model.WAssign.hasRewriteOnlyCycle g = true) : ∃ x, FgaVerif.Model.WAssign.RPath g x x :=
   FgaVerif.Model.WAssign.cycle_of_prepass g (FgaVerif.Model.WAssign.rclosedB_sound g hcl) h
+
+/-- a built graph is closed: every edge ends in one of its nodes (an invariant of the construction,
+    `Proofs/WGraphDst.lean`), so no run-time hypothesis is needed for graphs that come out of `build` -/
+theorem built_graph_closed (m : FgaVerif.Model.Model) (g : FgaVerif.Model.WGraph.G)
+    (h : FgaVerif.Model.WGraph.build m = .ok g) : FgaVerif.Model.WAssign.RClosed g := by
+  intro x y hs
+  unfold FgaVerif.Model.WAssign.RStep FgaVerif.Model.WAssign.rewriteSuccs at hs
+  obtain ⟨e, he, rfl⟩ := List.mem_map.1 hs
+  exact FgaVerif.Model.WGraph.build_dst m g h x e (List.mem_filter.1 he).1
+
+/-- **on every graph the builder produces, the pre-pass decides exactly whether a node lies on a cycle
+    of rewrite and computed edges** — independently of any order -/
+theorem algorithm_prepass_exact_on_built_graphs (m : FgaVerif.Model.Model) (g : FgaVerif.Model.WGraph.G)
+    (h : FgaVerif.Model.WGraph.build m = .ok g) :
+    FgaVerif.Model.WAssign.hasRewriteOnlyCycle g = true ↔
+      ∃ n ∈ g.nodes, FgaVerif.Model.WAssign.RPath g n.uniqueLabel n.uniqueLabel := by
+  constructor
+  · intro hp
+    obtain ⟨x, hx⟩ := FgaVerif.Model.WAssign.cycle_of_prepass g (built_graph_closed m g h) hp
+    obtain ⟨z, hz⟩ := hx.last
+    have hxl := built_graph_closed m g h z x hz
+    obtain ⟨n, hn, rfl⟩ := List.mem_map.1 hxl
+    exact ⟨n, hn, hx⟩
+  · rintro ⟨n, hn, hc⟩
+    cases hb : FgaVerif.Model.WAssign.hasRewriteOnlyCycle g with
+    | true => rfl
+    | false => exact absurd hc (FgaVerif.Model.WAssign.no_cycle_of_prepass g hb n hn)
 
 /-- **rewrite-only cycles never pass the (ported) algorithm, whatever the start order** -/
 theorem algorithm_rejects_rewrite_cycles (g : FgaVerif.Model.WGraph.G) (n : FgaVerif.Model.WGraph.WNode)
